@@ -270,6 +270,10 @@ def run(ctx, chk, tier="quick"):
                 want = simulate_direction(ctx, tab)
                 vv = getattr(it, "value_var", None)
                 uses_val = any(isinstance(a, ast.Name) and a.id == vv for a in it.args)
+                if d is None or want is None:
+                    chk.indeterminate("C19.O3", where_of(f, it.node), "%s %s: direction of the observations (%s) or of the simulated vector (%s) not determined"
+                                      % (kind, sy, d, want[0] if want else None))
+                    continue
                 chk.ob("C19.O3", d is not None and want is not None and d == want[0] and uses_val, where_of(f, it.node),
                        "%s %s: observations from %s ordered by level %s; simulate writes %s" % (kind, sy, tab, d, want[0] if want else "?"),
                        "the same direction", key="%s|%s|order|%s" % (f.qualname, sy, tab),
@@ -478,7 +482,9 @@ def simulate_direction(ctx, view):
         g = ctx.func("simulate_recession.simulate_recession")
         dumpf = ctx.func("simulate_recession.dump_simulated_recession")
     qdir = None
-    for s in ctx.sites_in(g):
+    from ..sqlbind import bindings as _bindings
+    sites_ = [s for s in ctx.sites_in(g)] + [b_.site for b_ in _bindings(ctx, g) if getattr(b_, "via", None)]   # own queries and query helpers'
+    for s in sites_:
         if s.stmt is not None and s.stmt.kind == "select" and view in {x.table for x in s.stmt.sources}:
             if s.stmt.order_by and column_role(s.stmt.order_by[0][0]) == "level":
                 qdir = s.stmt.order_by[0][1]
